@@ -574,7 +574,7 @@ PROPS = {
         ],
         "tested_not_proved": [
             "that value_util::build_node / Value::to_json refine Codec.from_json / Codec.to_json: compared on conforming values reached by real mutations (both map encodings), single-defect corruptions, arbitrary JSON",
-            "round trip value -> JSON -> value -> same JSON: checked by the monitor on every conforming case (also through JSON text), general theorem not yet proved",
+            "round trip value -> JSON -> value -> same JSON: proved for the model (serialise_then_read_back, integers in i64 and keys in usize); for the implementation checked by the monitor on every conforming case (also through JSON text)",
             "'the spec's own initial value as guess gives the same run': not yet covered by a stream",
         ],
     },
